@@ -126,6 +126,13 @@ CHECKS['C15'] = {
     'technique': 'TLA+ exact kernel composition + TLC enumeration + state replay; TLC-validated observation events with the domain table in TLA+',
 }
 
+CHECKS['C19'] = {
+    'text': 'MultiTaper.tla: pmtm / MultiTapering with caller-supplied rational tapers on the exact 4-point grid (eigenspectra, unity and eigen weights, class output; TLC checks non-negativity, Parseval per taper and real symmetry over every small x); each state is replayed into pmtm(e=, v=) (eigenspectra, weights, eigenvalues) and MultiTapering(e=, v=) (psd, doubled one-sided for real data). ObsC19.tla validates, with genuine Slepian tapers, N up to 256/1024, k from 1 to 2NW, NFFT >= N and the three methods: eigenspectra = DFT of taper*data, returned eigenvalues, unity/eigen weights, adaptive weights real, in [0, 1/lambda] and equal to Thomson formula at the converged spectrum, class psd = weighted mean (folded for real data), real and non-negative, precomputed tapers = internally computed.',
+    'design_ref': 'DESIGN.md 3/C19',
+    'note': 'Exact part: N in {3,4}, NFFT=4, unity/eigen weights only; the adaptive fixed point is decided from events with a tolerance of 0.25 of the largest weight (the iteration stops on a mean absolute change; measured worst case 0.05). dpss itself is taken as given (C18 not claimed).',
+    'technique': 'TLA+ exact 4-point-grid model + TLC enumeration + state replay; TLC-validated observation events',
+}
+
 NOT_APPLICABLE = {
     'C18': 'Slepian tapers: irrational eigenproblem solved in C; no exact finite model exists and quantised re-verification would make Python the oracle (a different technique). DESIGN.md section 4.',
 }
